@@ -15,6 +15,8 @@ var textAlphabet = [][]byte{
 	// the decoder's error value correctly encoded, a rune sharing the markers'
 	// first two bytes, non-printable but valid runes
 	[]byte("\uFFFD"), []byte("\u200b"), []byte("\u00a0"), []byte("\ufeff"),
+	// carriage returns next to line feeds
+	[]byte("\r"), []byte("\r\n"), []byte("\n\r"),
 }
 
 // genText draws a valid-UTF-8 payload over the text alphabet, with markers
@@ -100,7 +102,7 @@ func genByteVal(rt *rapid.T, label string, allowNonASCII bool) byte {
 	return cands[rapid.IntRange(0, len(cands)-1).Draw(rt, label+"_b")]
 }
 
-var floatPool = []string{"0", "-0", "1", "-1", "1.5", "-2.25", "1e21", "1e-7", "123456789", "3.141592653589793", "NaN", "+Inf", "-Inf", "5e-324", "1e20", "100000"}
+var floatPool = []string{"0", "-0", "1", "-1", "1.5", "-2.25", "1e21", "1e-7", "123456789", "3.141592653589793", "NaN", "+Inf", "-Inf", "5e-324", "1e20", "100000", "-NaN"}
 
 func genFloatS(rt *rapid.T, label string) string {
 	return floatPool[rapid.IntRange(0, len(floatPool)-1).Draw(rt, label+"_f")]
@@ -108,7 +110,9 @@ func genFloatS(rt *rapid.T, label string) string {
 
 var intPool = []int64{0, 1, -1, 7, 10, 42, -42, 127, 128, 255, 256, 65, 0x2039, 0x203a, 1000000, -9223372036854775808, 9223372036854775807, 1114111, 55296,
 	// code points at the edges of Unicode classes (graphic but not printable, format, private use, unassigned, replacement)
-	0xA0, 0xAD, 0x7F, 0x85, 0x1680, 0x2000, 0x200B, 0x2028, 0x202F, 0x3000, 0xFEFF, 0xFFFD, 0x0378, 0xE000}
+	0xA0, 0xAD, 0x7F, 0x85, 0x1680, 0x2000, 0x200B, 0x2028, 0x202F, 0x3000, 0xFEFF, 0xFFFD, 0x0378, 0xE000,
+	// beyond 32 bits, with a low half that is a printable code point / a marker
+	1<<32 + 'A', 1<<32 + 0x203a, 1<<40 + 'a', -(1 << 32) + 'A', 1<<31 + 'A'}
 
 func genInt(rt *rapid.T, label string) int64 {
 	if rapid.IntRange(0, 3).Draw(rt, label+"_ik") == 0 {
@@ -131,7 +135,7 @@ type opConfig struct {
 
 var safeWriterKinds = []string{"SafeString", "SafeInt", "SafeUint", "SafeFloat", "SafeRune", "SafeByte", "SafeBytes",
 	"UnsafeString", "UnsafeRune", "UnsafeByte", "UnsafeBytes"}
-var ioKinds = []string{"Write", "WriteString", "WriteByte", "WriteRune"}
+var ioKinds = []string{"Write", "WriteString", "WriteByte", "WriteRune", "IOCopy", "StdFprint"}
 var accessorKinds = []string{"Len", "Cap", "String", "RedactableString", "RedactableBytes", "GetMode"}
 var resetKinds = []string{"Reset", "TakeS", "TakeB"}
 
@@ -169,7 +173,7 @@ func genPayload(rt *rapid.T, cfg *opConfig, label string) []byte {
 func genOpOfKind(rt *rapid.T, cfg *opConfig, k string) *Op {
 	op := &Op{K: k}
 	switch k {
-	case "SafeString", "SafeBytes", "UnsafeString", "UnsafeBytes", "Write", "WriteString":
+	case "SafeString", "SafeBytes", "UnsafeString", "UnsafeBytes", "Write", "WriteString", "IOCopy", "StdFprint":
 		op.S = genPayload(rt, cfg, "p")
 	case "SafeInt":
 		op.I = genInt(rt, "i")
@@ -235,6 +239,14 @@ func genSimpleFormat(rt *rapid.T, label string, nargs int, bytesAlpha bool) []by
 		out = append(out, verbs[rapid.IntRange(0, len(verbs)-1).Draw(rt, label+"_v")])
 	}
 	lit()
+	switch rapid.IntRange(0, 11).Draw(rt, label+"_mm") {
+	case 5:
+		// one directive more than operands: a MISSING report
+		out = append(out, "%d"...)
+	case 7:
+		// an argument index that does not exist: a BADINDEX report
+		out = append(out, "%[9]v"...)
+	}
 	// '%' inside literals would consume operands; that is fine (chaotic), but
 	// keep literals free of '%' so that the binding stays simple
 	for i := range out {
@@ -277,7 +289,7 @@ func genHistory(rt *rapid.T, cfg *opConfig, maxLen int) []*Op {
 			switch op.K {
 			case "SafeString", "SafeInt", "SafeUint", "SafeFloat", "SafeRune", "SafeByte", "SafeBytes":
 				mode = 1
-			case "UnsafeString", "UnsafeRune", "UnsafeByte", "UnsafeBytes", "Write", "WriteString", "WriteByte", "WriteRune":
+			case "UnsafeString", "UnsafeRune", "UnsafeByte", "UnsafeBytes", "Write", "WriteString", "WriteByte", "WriteRune", "IOCopy", "StdFprint":
 				mode = 0
 			case "Print", "Printf":
 				mode = 2
